@@ -6,6 +6,7 @@ export GOCACHE=/verif/.cache/go-build
 export CGO_ENABLED=1
 mkdir -p /verif/.bin /verif/.cache /verif/evidence /verif/replays
 cd /verif/harness || exit 2
+go run ./genfuncs /repo > zz_funcs_gen.go || exit 2
 go build -tags verif -o /verif/.bin/check . || exit 2
 go build -race -tags verif -o /verif/.bin/check-race . || exit 2
 echo setup-ok
